@@ -154,6 +154,12 @@ func checkLoop(l *loopInst) string {
 			return "FAIL C10 upload-without-local-change-or-startup"
 		}
 	}
+	if l.earlyUpload {
+		l.earlyUpload = false
+		if oracleFor("C05") {
+			return "FAIL C05 uploaded-before-merging-the-own-newest-snapshot-found-at-start-up"
+		}
+	}
 	logical, app, err := logicalOf(l)
 	if err != nil {
 		return "FAIL stored-value-without-header"
